@@ -44,7 +44,11 @@ pub fn make_file(seed: u64, n: u64, cover: &mut crate::Cover) -> Option<(Vec<u8>
                     if b.len() < 1200 {
                         *b = gen_blob_data(&mut r, 1200 + (n as usize * 37) % 1500, 3);
                     }
-                    b.truncate(2700)
+                    b.truncate(2700);
+                    if n % 3 == 1 {
+                        // constant content over several pages: neighbouring pages are byte-identical, checksum included
+                        *b = vec![[0u8, 0xAA, 0xFF][(n as usize / 3) % 3]; 3 * 1020 + 300 + (n as usize % 7) * 4];
+                    }
                 }
                 Item::Img(im) => {
                     if let Some(v) = &mut im.visual {
